@@ -420,7 +420,10 @@ struct ParamOpts {
 
 inline ColoquinteParameters genParams(Rng &r, const ParamOpts &o) {
   int effort = (int)r.in(1, 9);
-  ColoquinteParameters p(effort, (int)r.in(-1, 1000));
+  // seeds: the special values callers use (-1 = the default, 0, 1) as often as arbitrary ones
+  int sd = (int)r.in(-1, 1000);
+  if (sd % 3 == 0) sd = (sd / 3) % 3 - 1;
+  ColoquinteParameters p(effort, sd);
   if (o.defaultsOnly || r.chance(0.25)) return p;
   // legalization: on and inside the bounds of the check
   {
